@@ -17,6 +17,7 @@ type GenOpts struct {
 	Checks      float64 // share of canadd/canremove ops
 	Motifs      []string
 	NoExcRel    bool
+	Detach      float64 // probability of a handler that detaches a binding
 }
 
 var baseNames = []string{"A", "B", "C", "D", "F", "G", "H", "K"}
@@ -199,6 +200,32 @@ func GenSchema(r *rand.Rand, o GenOpts, motif string) *Schema {
 				s.Defs[i].Multi = true
 			}
 		}
+	case "health":
+		// one state named Heartbeat/Healthcheck plus several Auto states
+		if len(users) >= 2 && len(s.Health) == 0 {
+			h := users[r.Intn(len(users))]
+			if r.Intn(2) == 0 {
+				s.Names[h] = "Heartbeat"
+			} else {
+				s.Names[h] = "Healthcheck"
+			}
+			s.Health = []int{h}
+			s.Defs[h] = StateDef{Multi: r.Intn(2) == 0}
+			for _, i := range users {
+				if i != h && r.Float64() < 0.6 {
+					s.Defs[i].Auto = true
+					s.Defs[i].Remove = without(s.Defs[i].Remove, h)
+				}
+			}
+		}
+	case "autoveto":
+		for _, i := range users {
+			if r.Float64() < 0.7 {
+				s.Defs[i].Auto = true
+				s.Defs[i].Require = nil
+				s.Defs[i].Remove = nil
+			}
+		}
 	case "sparse":
 		for _, i := range users {
 			if r.Float64() < 0.6 {
@@ -308,6 +335,22 @@ func GenCase(r *rand.Rand, o GenOpts) Case {
 				}
 			}
 		}
+		if motif == "autoveto" {
+			// several state-state / enter vetoes aimed at Auto states in one binding
+			b := r.Intn(nb)
+			for i := 0; i < n; i++ {
+				if !s.Defs[i].Auto {
+					continue
+				}
+				x := r.Intn(n)
+				switch r.Intn(3) {
+				case 0:
+					lines = append(lines, fmt.Sprintf("rule %d trans:%d:%d * f", b, x, i))
+				case 1:
+					lines = append(lines, fmt.Sprintf("rule %d enter:%d * f", b, i))
+				}
+			}
+		}
 		if r.Float64() < o.Faults {
 			b := r.Intn(nb)
 			h := hnamesFor(s, r, 1)[0]
@@ -318,6 +361,13 @@ func GenCase(r *rand.Rand, o GenOpts) Case {
 			lines = append(lines, fmt.Sprintf("rule %d %s %d %s", b, h, r.Intn(2), act))
 			lines = append(lines, fmt.Sprintf("rule %d %s * t", b, h))
 			tag += "+panic"
+		}
+		if r.Float64() < o.Detach && nb >= 2 {
+			b := r.Intn(nb)
+			h := hnamesFor(s, r, 1)[0]
+			lines = append(lines, fmt.Sprintf("rule %d %s %d detach:%d", b, h, r.Intn(2), r.Intn(nb)))
+			lines = append(lines, fmt.Sprintf("rule %d %s * t", b, h))
+			tag += "+detach"
 		}
 		if r.Float64() < o.Timeouts {
 			b := r.Intn(nb)
@@ -330,6 +380,14 @@ func GenCase(r *rand.Rand, o GenOpts) Case {
 	nops := 3 + r.Intn(o.MaxOps)
 	for i := 0; i < nops; i++ {
 		st := showList(genStates(r, n))
+		if len(s.Health) > 0 && r.Float64() < 0.35 {
+			hs := []int{s.Health[0]}
+			if r.Float64() < 0.6 {
+				hs = append(hs, r.Intn(n))
+			}
+			lines = append(lines, "add "+showList(hs))
+			continue
+		}
 		x := r.Float64()
 		switch {
 		case x < o.Checks/2:
